@@ -321,11 +321,30 @@ def build_or_report(chk, features):
     return None
 
 
-def measure_cap(build):
-    rc, out = sh(os.path.join(build["dir"], "eng_outport") + " --cap", timeout=120)
+def measure_cap(build, args=""):
+    """ring size of the port, or None when the publisher never came back from a burst (watchdog)"""
+    rc, out = sh(os.path.join(build["dir"], "eng_outport") + " --cap " + args, timeout=900)
     if rc != 0:
         raise RuntimeError("eng_outport --cap failed:\n" + out[-2000:])
-    return int(out.strip().split("\n")[-1])
+    last = out.strip().split("\n")[-1]
+    if last.startswith("blocked"):
+        return None, int(last.split()[1])
+    return int(last), None
+
+
+def gen_big_bursts(rng):
+    """publisher publishes far more than any internal bound (1500, 5000) without yielding: publishing
+    never blocks, the default port delivers the last ring-full, the v2 port everything"""
+    cases = [
+        [("S", 0) + CONV_ALL, ("T",), ("b", 1500), ("T",)],
+        [("S", 0, 2, 0, 1, 0), ("b", 5000), ("T",), "p", ("T",)],
+        [("b", 1500), ("S", 0) + CONV_ALL, ("b", 1100), ("S", 1, 3, 1, 1, 0), "p", ("T",)],
+        [("S", 0) + CONV_ALL, ("S", 1, 2, 1, 1, 0), ("T",), ("K", 0), ("b", 1500), ("T",), ("b", 3), ("T",)],
+        [("SS", 0) + CONV_ALL, ("b", 1200), ("R", 0), ("b", 1030), ("D",), ("T",)],
+    ]
+    n = rng.choice([1025, 1300, 2049])
+    cases.append([("S", 0) + CONV_ALL, ("ST", 1), ("b", n), ("T",), ("b", n), ("T",)])
+    return [{"poison": [], "ops": renumber(c), "kind": "big_burst"} for c in cases]
 
 
 def run(chk):
@@ -341,9 +360,23 @@ def run(chk):
     if b1 is None or b2 is None:
         return chk.finish(trusted_base=TRUSTED)
 
-    cap1 = measure_cap(b1)
-    cap2 = measure_cap(b2)
-    chk.notes.append(f"measured ring size: default port {cap1}, v2 port {cap2} (0 = nothing skipped in a burst of 4096)")
+    blocked_cfg = {}
+    caps = {}
+    for name, build, args in (("default", b1, ""), ("output-port-v2", b2, ""),
+                              ("output-port-v2, allow_duplicate_subscription=false", b2, "--nodup")):
+        c_, blk = measure_cap(build, args)
+        caps[name] = c_
+        if blk is not None:
+            blocked_cfg[name] = blk
+            chk.violation(f"{name} port: the publisher never returned from a burst of {blk} publishes",
+                          "C16 publishing never blocks the publisher (C16_v1_publish_nonblocking / C16_v2_publish_nonblocking): "
+                          "the driver did not come back within the watchdog bound\n"
+                          f"build: {name}\nharness line (eng_outport stdin): - | S 0 1 0 1 0 ; T ; B 0 {blk} ; T\n"
+                          "implementation: Blocked\n")
+    cap1 = caps["default"] or 0
+    cap2 = caps["output-port-v2"] or 0
+    chk.notes.append(f"measured ring size: default port {caps['default']}, v2 port {caps['output-port-v2']} "
+                     "(0 = nothing skipped in a burst of 4096; None = publisher blocked)")
     if cap2 != 0:
         chk.violation("v2 port skipped messages of a burst into a parked subscriber",
                       f"C16: v2 build: a single subscriber received only {cap2} of 4096 back-to-back publishes\n"
@@ -352,6 +385,7 @@ def run(chk):
     gen_cap = cap1 if 0 < cap1 <= 64 else 16
 
     cases = load_corpus()
+    cases += gen_big_bursts(chk.rng)
     cases += gen_exhaustive(gen_cap, 4 if quick else 5)
     cases += gen_exhaustive_starting(gen_cap, 4 if quick else 5)
     cases += gen_exhaustive_drop(gen_cap, 5 if quick else 6)
@@ -363,14 +397,17 @@ def run(chk):
     # v2 port created with allow_duplicate_subscription = false (cfg-gated hook constructor)
     impl3 = run_harness(b2, "eng_outport", lines, shards=8, args="--nodup")
 
+    def obs(i):
+        return "Blocked" if i in ("Blocked", "Panicked") else f"(Done {i})"
+
     exprs = []
     for c, i1, i2, i3 in zip(cases, impl1, impl2, impl3):
         t = sc_term(c)
         exprs.append(f"let sc := {t} in let m1 := X1.result {cap}%nat sc in let m2 := X2.result true sc in "
                      f"let m3 := X2.result false sc in "
-                     f"(m1, check_C16 false {cap}%nat sc {i1}, check_C16 false {cap}%nat sc m1, "
-                     f"m2, check_C16 true {cap}%nat sc {i2}, check_C16 true {cap}%nat sc m2, "
-                     f"m3, check_C16_nodup {cap}%nat sc {i3}, check_C16_nodup {cap}%nat sc m3)")
+                     f"(m1, check_C16_obs false false {cap}%nat sc {obs(i1)}, check_C16 false {cap}%nat sc m1, "
+                     f"m2, check_C16_obs true false {cap}%nat sc {obs(i2)}, check_C16 true {cap}%nat sc m2, "
+                     f"m3, check_C16_obs true true {cap}%nat sc {obs(i3)}, check_C16_nodup {cap}%nat sc m3)")
     model = coq_eval("C16", IMPORTS, exprs)
 
     distinct = set()
@@ -398,6 +435,15 @@ def run(chk):
             chk.count("cases_where_a_subscription_was_replaced")
         for ver, impl, mres, orc, orc_m in (("default", i1, m1, o1, om1), ("output-port-v2", i2, m2, o2, om2),
                                             ("output-port-v2, allow_duplicate_subscription=false", i3, m3, o3, om3)):
+            if impl in ("Blocked", "Panicked"):
+                what = ("the driver never came back from a publish/subscribe call (watchdog)" if impl == "Blocked"
+                        else "the scenario thread panicked inside the library")
+                chk.violation(f"{ver} port: {what}",
+                              "C16 oracle check_C16_obs rejects the observation: publishing never blocks the publisher "
+                              "(C16_v1_publish_nonblocking / C16_v2_publish_nonblocking)\n"
+                              f"build: {ver}\nharness line (eng_outport stdin): {line}\ncoq scenario: {sc_term(c)}\n"
+                              f"implementation: {impl}\nmodel, received per subscription: {show_term(mres)[:2000]}\n")
+                continue
             iv = parse_term(impl)
             desc = (f"build: {ver}   ring size passed to the model: {cap}\n"
                     f"harness line (eng_outport stdin): {line}\n"
@@ -425,7 +471,7 @@ def run(chk):
                             "subscribe a1 (even only), settle, stop a0, hold a1, give a1 1} followed by a settle, and the same lengths over "
                             "{publish, burst, subscribe parked a2, self-subscribing a3, start a2, start a3, fail start a2, settle, stop a2}, and length <= 5 over {publish, burst, subscribe a0, subscribe a1, settle, drop the port (once, nothing published after), stop a0}, and exactly 5 operations over {publish, subscribe a0, subscribe a1, stop a0, settle}; random: seeded "
                             "scenarios of 6-40 operations over up to 4 receivers (re-subscription, bursts around the ring size, "
-                            "stops, gated handlers, failing handlers, dropping converters, receivers that are still Starting when subscribed / that subscribe from pre_start / whose pre_start fails, the port dropped right after a burst, subscription through the OutputPortSubscriber trait); every case on the default build, the v2 build and the v2 build with allow_duplicate_subscription=false (hook constructor). "
+                            "stops, gated handlers, failing handlers, dropping converters, receivers that are still Starting when subscribed / that subscribe from pre_start / whose pre_start fails, the port dropped right after a burst, subscription through the OutputPortSubscriber trait, bursts of 1025-5000 publishes without a settle); every case on the default build, the v2 build and the v2 build with allow_duplicate_subscription=false (hook constructor). "
                             "non-trivial = some subscription receives at least one item; distinct = distinct scenario lines"
                             % (4 if quick else 5))
     chk.coverage["exhaustive_part"] = "operation sequences of length <= %d over an 8-letter alphabet" % (4 if quick else 5)
